@@ -17,6 +17,11 @@ def run(ctx: Ctx, chk) -> None:
     chk.run_rule(eea_pload, ctx)
     chk.run_rule(handler_order, ctx)
     chk.run_rule(empty1, ctx)
+    # observed at Gateway.__aenter__: a failed load must not be followed by a stop()/save() whose own failure
+    # (a write error) replaces the read error (same rule as C15)
+    from .c15 import load_guard
+
+    chk.run_rule(load_guard, ctx)
 
 
 def eea_pload(ctx: Ctx, chk) -> None:
